@@ -246,7 +246,16 @@ def _run_ms1(case):
     a = calc_cross_sections(s, nmed, wl, pol, theory=Mie()).values
     b = calc_cross_sections(Spheres([s]), nmed, wl, pol, theory=Multisphere(qeps1=1e-10, qeps2=1e-12, eps=1e-10)).values
     resid = {"ms1_xsec": fnum(float(np.abs(a[:3] - b[:3]).max() / a[2])), "ms1_g": fnum(abs(a[3] - b[3]))}
-    return {"resid": resid, "flags": {}, "cond": 0.0, "x": x, "cext": float(a[2])}
+    # the tightest tolerance one can write: smaller means more accurate, down to "refused" -- never a different answer
+    flags = {}
+    for tol_ in (1e-30, 0.0, -1e-5):
+        try:
+            th_ = Multisphere(qeps1=tol_, qeps2=1e-12, eps=1e-10)
+        except ValueError:
+            continue
+        c_ = calc_cross_sections(Spheres([s]), nmed, wl, pol, theory=th_).values
+        flags["tolerance_%g_refused_or_accurate" % tol_] = bool(float(np.abs(a[:3] - c_[:3]).max() / a[2]) <= 1e-6 or x > 25)
+    return {"resid": resid, "flags": flags, "cond": 0.0, "x": x, "cext": float(a[2])}
 
 
 # ------------------------------------------------------------------ oracle
